@@ -1,4 +1,5 @@
 #!/bin/bash
+export VERIF_EVIDENCE_DIR=/root/.cache/sfverif-trial-evidence; mkdir -p $VERIF_EVIDENCE_DIR  # evidence of trials on changed trees never lands in /verif/evidence
 # tools_matrix.sh [extra Cxx ...]  : for every seeded change, apply it to /repo, run its own property's quick check (plus extras),
 # undo it, and record the outcome in seeded/<id>/meta.json (detected_by) and in /verif/seeded/MATRIX.txt
 cd /verif; : > seeded/MATRIX.txt
